@@ -1,4 +1,5 @@
 import HeraProofs.Props.C02
+import HeraModel.Generated.OpFacts
 /-
   C15 — runs are repeatable, isolated from earlier runs, and throttling cuts cleanly.
 
@@ -147,5 +148,11 @@ theorem C15_throttle_uncut (p : Program) (k : Nat) :
       have e1 : c + 1 + (k : Int) = c + ((k + 1 : Nat) : Int) := by push_cast; omega
       rw [e1] at this
       exact this
+
+/-- **C15 (the throttle counter is private to the run loop).** In the current source (regenerated table) no module but
+    hera/vm.py and hera/main.py mentions `op_count`: no operation, library helper or debugger command reads or writes
+    it. This is the syntactic ground of the hypothesis `hexec` of the two throttle theorems (executing an operation is
+    parametric in the counter). -/
+theorem C15_op_count_private : OpFacts.opCountUsers = [] := by decide
 
 end Hera
